@@ -190,3 +190,164 @@ T('cache-guard-demorgan', ['C01', 'C05'],
                             or not caching_loop.is_running()):""",
    """                    if not (caching_loop.is_running()
                             and not caching_loop.is_closed()):"""))
+
+
+# ---------------------------------------------------------------------------
+# FileLock
+# ---------------------------------------------------------------------------
+ENTER_FIXED = """        if not self.acquire():
+            raise TimeoutError("Failed to acquire file lock:", self._lock_file)
+        return self
+"""
+B('fl-enter-ignores-result', ['C02'], ['C02-R7'],
+  (F, ENTER_FIXED, "        self.acquire()\n        return self\n"))
+B('fl-force-release-once', ['C12'], ['C12-R1'],
+  (F, """            else:
+                _logger.info('Lock %s released on %s', lid, fn)
+            # When forced, every nested level is given up at once
+            levels += self._lock_counter
+            self._lock_counter = 0
+""", """            else:
+                self._lock_counter = 0
+                _logger.info('Lock %s released on %s', lid, fn)
+"""))
+B('fl-lock-shared', ['C02', 'C13'], ['C02-R5', 'C13-R3'],
+  (F, "fcntl.flock(fd,  fcntl.LOCK_EX | (0 if block else fcntl.LOCK_NB))", "fcntl.flock(fd,  fcntl.LOCK_SH | (0 if block else fcntl.LOCK_NB))"))
+B('fl-lockf', ['C02', 'C13'], ['C02-R5', 'C13-R3'],
+  (F, "fcntl.flock(fd,  fcntl.LOCK_EX | (0 if block else fcntl.LOCK_NB))", "fcntl.lockf(fd,  fcntl.LOCK_EX | (0 if block else fcntl.LOCK_NB))"))
+B('fl-nb-inverted', ['C02'], ['C02-R5'],
+  (F, "(0 if block else fcntl.LOCK_NB)", "(fcntl.LOCK_NB if block else 0)"))
+B('fl-win-modes-swapped', ['C02'], ['C02-R5'],
+  (F, "msvcrt.LK_LOCK if block else msvcrt.LK_NBLCK", "msvcrt.LK_NBLCK if block else msvcrt.LK_LOCK"))
+B('fl-cached-descriptor', ['C02'], ['C02-R4'],
+  (F, "            fd = os.open(self._lock_file, self._FD_OPEN_MODE)", "            fd = getattr(self, '_fd_cache', None) or os.open(self._lock_file, self._FD_OPEN_MODE)\n            self._fd_cache = fd"))
+B('fl-true-on-timeout', ['C02', 'C12'], ['C02-R1', 'C02-R2', 'C12-R1'],
+  (F, """                    _logger.debug('Timeout on acquiring lock %s on %s', lid, fn)
+                    _cleanup_thread_lock()
+                    return False""", """                    _logger.debug('Timeout on acquiring lock %s on %s', lid, fn)
+                    _cleanup_thread_lock()
+                    return True"""))
+B('fl-no-cleanup-nonblocking', ['C12'], ['C12-R1'],
+  (F, """                    _logger.debug('Failed to acquire lock %s on %s', lid, fn)
+                    _cleanup_thread_lock()
+                    return False""", """                    _logger.debug('Failed to acquire lock %s on %s', lid, fn)
+                    return False"""))
+B('fl-cleanup-keeps-counter', ['C12'], ['C12-R1'],
+  (F, """            self._decrement_lock_counter()
+            self._thread_lock.release()""", """            self._thread_lock.release()"""))
+B('fl-fd-set-before-lock', ['C02'], ['C02-R3'],
+  (F, """        try:
+            self._lock(fd, block)
+        except (IOError, OSError):
+            os.close(fd)
+        else:
+            self._lock_file_fd = fd""", """        self._lock_file_fd = fd
+        try:
+            self._lock(fd, block)
+        except (IOError, OSError):
+            os.close(fd)"""))
+B('fl-tl-released-before-os', ['C02', 'C12'], ['C02-R6', 'C12-R1'],
+  (F, """            try:
+                self._release()
+            except:  # noqa""", """            try:
+                self._thread_lock.release()
+                self._release()
+            except:  # noqa"""))
+B('fl-remove-on-release', ['C13'], ['C13-R1', 'C13-R4'],
+  (F, """        finally:
+            os.close(fd)
+
+    @abc.abstractmethod""", """        finally:
+            os.close(fd)
+            os.remove(self._lock_file)
+
+    @abc.abstractmethod"""))
+B('fl-o-excl', ['C13'], ['C13-R2'],
+  (F, "os.O_RDWR | os.O_CREAT | os.O_TRUNC", "os.O_RDWR | os.O_CREAT | os.O_EXCL"))
+B('fl-pid-file', ['C13'], ['C13-R1'],
+  (F, "            self._lock_file_fd = fd\n", "            self._lock_file_fd = fd\n            os.write(fd, str(os.getpid()).encode())\n"))
+B('fl-exists-check', ['C13'], ['C13-R1'],
+  (F, "        try:\n            fd = os.open(self._lock_file, self._FD_OPEN_MODE)", "        if os.path.exists(str(self._lock_file) + '.held'):\n            return\n        try:\n            fd = os.open(self._lock_file, self._FD_OPEN_MODE)"))
+B('fl-leak-fd-on-lock-failure', ['C12'], ['C12-R5'],
+  (F, "        except (IOError, OSError):\n            os.close(fd)", "        except (IOError, OSError):\n            pass"))
+B('fl-close-not-in-finally', ['C12'], ['C12-R5'],
+  (F, """        try:
+            self._unlock(fd)
+        finally:
+            os.close(fd)""", """        self._unlock(fd)
+        os.close(fd)"""))
+B('fl-inner-release-drops-os-lock', ['C12'], ['C12-R2', 'C12-R1'],
+  (F, "        if self._lock_counter == 0 or force:", "        if self._lock_counter >= 0 or force:"))
+B('fl-nonblocking-sleeps', ['C12'], ['C12-R7'],
+  (F, """                elif not blocking:
+                    _logger.debug('Failed to acquire lock %s on %s', lid, fn)
+                    _cleanup_thread_lock()
+                    return False
+""", ""))
+B('fl-clock-before-stage1', ['C12'], ['C12-R8'],
+  (F, "        lid = id(self)\n        fn = self._lock_file\n\n        if not self._thread_lock", "        lid = id(self)\n        fn = self._lock_file\n        start_time = time.time()\n\n        if not self._thread_lock"),
+  (F, "        start_time = time.time()\n\n        def _cleanup", "        def _cleanup"))
+B('fl-rlock-always', ['C12'], ['C12-R3'],
+  (F, "            self._thread_lock = threading.Lock()", "            self._thread_lock = threading.RLock()"))
+B('fl-normalise-always-blocking', ['C12'], ['C12-R6'],
+  (F, "            blocking = blocking if timeout < 0 else True", "            blocking = True"))
+B('fl-normalise-nonblocking-default-timeout', ['C12'], ['C12-R6'],
+  (F, "            timeout = self.timeout if blocking else -1", "            timeout = self.timeout"))
+B('fl-unheld-release-resets', ['C12'], ['C12-R4'],
+  (F, "        if not self.is_locked:\n            return\n\n        self._decrement", "        if not self.is_locked:\n            self._lock_counter = 0\n            return\n\n        self._decrement"))
+B('fl-sleep-constant', ['C12'], ['C12-R8'],
+  (F, "time.sleep(poll_interval)", "time.sleep(1)"))
+B('fl-os-release-failure-keeps-tl', ['C12'], ['C12-R9', 'C12-R1'],
+  (F, """            except:  # noqa
+                _logger.exception("Failed to release lock %s on %s", lid, fn)
+            else:""", """            except:  # noqa
+                _logger.exception("Failed to release lock %s on %s", lid, fn)
+                return
+            else:"""))
+B('fl-acquire-ctx-ignores-result', ['C02'], ['C02-R7'],
+  (F, """        if not self.acquire(blocking, timeout, poll_interval):
+            raise TimeoutError("Failed to acquire file lock:", self._lock_file)
+        try:""", """        self.acquire(blocking, timeout, poll_interval)
+        try:"""))
+
+T('fl-rename-attrs', ['C02', 'C12', 'C13'],
+  (F, "_thread_lock", "_tl", 'all'), (F, "_lock_counter", "_depth", 'all'), (F, "_lock_file_fd", "_fd", 'all'))
+T('fl-enter-via-variable', ['C02'],
+  (F, ENTER_FIXED, """        ok = self.acquire()
+        if not ok:
+            raise TimeoutError("Failed to acquire file lock:", self._lock_file)
+        return self
+"""))
+T('fl-flags-reordered', ['C02', 'C13'],
+  (F, "fcntl.LOCK_EX | (0 if block else fcntl.LOCK_NB)", "(0 if block else fcntl.LOCK_NB) | fcntl.LOCK_EX"))
+T('fl-flags-negated-test', ['C02', 'C13'],
+  (F, "(0 if block else fcntl.LOCK_NB)", "(fcntl.LOCK_NB if not block else 0)"))
+T('fl-release-extra-levels-form', ['C12', 'C02'],
+  (F, """        levels = 1  # Levels of the thread lock to release
+""", """        extra = 0
+"""),
+  (F, """            levels += self._lock_counter
+            self._lock_counter = 0
+""", """            extra = self._lock_counter
+            self._lock_counter = 0
+"""),
+  (F, """            for _ in range(levels):
+                self._thread_lock.release()
+""", """            self._thread_lock.release()
+            for _ in range(extra):
+                self._thread_lock.release()
+"""))
+T('fl-lock-kind-ifexp', ['C12'],
+  (F, """        if self._reentrant:
+            self._thread_lock = threading.RLock()
+        else:
+            self._thread_lock = threading.Lock()""", """        self._thread_lock = threading.RLock() if self._reentrant else threading.Lock()"""))
+T('fl-open-mode-reordered', ['C13'],
+  (F, "os.O_RDWR | os.O_CREAT | os.O_TRUNC", "os.O_CREAT | os.O_TRUNC | os.O_RDWR"))
+T('fl-inline-cleanup', ['C12', 'C02'],
+  (F, """                    _logger.debug('Failed to acquire lock %s on %s', lid, fn)
+                    _cleanup_thread_lock()
+                    return False""", """                    _logger.debug('Failed to acquire lock %s on %s', lid, fn)
+                    self._decrement_lock_counter()
+                    self._thread_lock.release()
+                    return False"""))
